@@ -907,18 +907,24 @@ def rule_lazy_chain(ctx):
             ctx.saw(fn)
             exits = set()
             missing_prev = []
+            no_exit = []
             for v in allv:
                 ex, _ = interp.run(fn, v)
                 exits |= ex
+                if not ex and not pred.holds1(model.as_dict(v)):
+                    no_exit.append(model.as_dict(v))
                 if k > 0 and not preds[k - 1].holds1(model.as_dict(v)) and not pred.holds1(model.as_dict(v)):
                     if fns[k - 1].qn not in interp.calls_of(fn, v):
                         missing_prev.append(model.as_dict(v))
             n += 1
             badx = [x for x in exits if not pred.holds1(model.as_dict(x))]
-            ctx.report(RULE, "CHAIN:%s:%s:marks-done" % (sname, fn.name), bool(exits) and not badx,
+            okd = bool(exits) and not badx and not no_exit
+            ctx.report(RULE, "CHAIN:%s:%s:marks-done" % (sname, fn.name), okd,
                        fn.where(), fn.short,
-                       "" if exits and not badx else "%s can return without establishing %s (exit state %s)"
-                       % (fn.name, pred.text, model.as_dict(badx[0]) if badx else "no normal exit"))
+                       "" if okd else ("%s entered in state %s has no normal exit (its stage is never marked done)"
+                                       % (fn.name, no_exit[0]) if no_exit and not badx else
+                                       "%s can return without establishing %s (exit state %s)"
+                                       % (fn.name, pred.text, model.as_dict(badx[0]) if badx else "no normal exit")))
             if k > 0:
                 n += 1
                 ctx.report(RULE, "CHAIN:%s:%s:ensures-%s" % (sname, fn.name, fns[k - 1].name),
